@@ -119,7 +119,8 @@ WRAPS = ["time", "platform_timer_start",
          "async_runtime_init", "async_runtime_add", "async_runtime_modify", "async_runtime_remove",
          "async_runtime_wakeup", "async_runtime_wait", "async_runtime_get_console_type",
          "console_worker_init", "isatty", "tcgetattr", "tcsetattr", "write",
-         "fopen", "fclose", "rename", "unlink", "fprintf"]
+         "fopen", "fclose", "rename", "unlink", "fprintf",
+         "open", "stat", "lstat", "opendir", "mkdir", "rmdir", "link", "symlink"]
 
 
 def include_flags(bdir):
